@@ -113,8 +113,10 @@ def check_relations(cfg, run, ctx, proj):
                         out.append(("C04.AbstractRoundTrip", {"clause": "built_differs", "assignment": a,
                                                               "why": why[:200]}))
     except Exception as e:  # noqa: BLE001
-        out.append(("C04.AbstractRoundTrip", {"clause": "raises", "exc": type(e).__name__,
-                                              "msg": str(e)[:160], "parametrized": param}))
+        # documented refusal (outside the quantifier): interpolators other than Pchip / with keywords
+        if not (type(e).__name__ == "AbstractReprError" and "only supported for the 'PchipInterpolator'" in str(e)):
+            out.append(("C04.AbstractRoundTrip", {"clause": "raises", "exc": type(e).__name__,
+                                                  "msg": str(e)[:160], "parametrized": param}))
     # ---------------- C04 legacy JSON
     try:
         with warnings.catch_warnings():
